@@ -49,6 +49,15 @@ CHECKS = {
  "C17": ("fault_enumeration", "deterministic simulation: stored-byte corruption at restart through the real open / import / rollback paths",
          "One fault per run between a clean close and the next open: a metadata slot, vector header, page-index region, holes region or change record is bit-flipped, overwritten, field-targeted or truncated; decoders are reached only through Database::open, import, rollback and the public RegionMetadata::from_bytes.",
          "Trusted: validity rules as listed in the property; reads after a successful import over garbage are not judged.", "6 C17"),
+ "C06": ("exploration", "deterministic simulation: incremental vs from-scratch run of the same compute method, batch-size knob randomised per run, restarts",
+         "25 exact-arithmetic compute methods; histories of source appends, truncate-then-regrow, redundant calls, destination writes and re-imports; after every compute call the stored result is compared with the same method run from scratch with the production batch size; the MAX_CACHE_SIZE knob is drawn per run (one element ... production, incl. a non-multiple of the element size) so multi-batch paths run in most runs.",
+         "Trusted: the method itself as reference (formula errors out of scope); u64 elements; 39 float/two-level methods skipped, listed in the evidence.", "6 C06"),
+ "C18": ("exploration", "deterministic simulation: generated open/drop orders across holder, other threads and child processes (the simulator re-executed), synchronous steps",
+         "Seeded sequences of open / clone / region-derived reference / reader / background task / drop in any order, interleaved with second opens from threads and child processes with min_len below and above the current size; while held: lock error and byte-identical files; after release: success and exactly the flushed data.",
+         "Trusted: flock semantics of the host kernel; synchronous steps (the order of events is the generated one).", "6 C18"),
+ "C19": ("exploration", "deterministic simulation: compute calls with harness-controlled source versions; closure records evaluated indices",
+         "compute_transform / transform2 / range / to driven with a source wrapper whose version the harness controls and closures that record every evaluated index and stamp results with the version presented; after every call: full recompute iff the version changed, nothing below min(start, stored length) re-evaluated otherwise, recorded version correct and surviving flush + re-import.",
+         "Trusted: own version constant (a change of it goes through import, C14); append-only sources.", "6 C19"),
  "C13": ("exploration", "deterministic simulation: refused requests inside seeded histories, model unchanged + continuation",
          "Refused requests are issued at random points of rawdb histories (even runs) and vecdb histories (odd runs); the call must fail, the state must equal the unchanged model at once and through the continuation.",
          "Trusted: reference model; the refused-request catalogue (see DESIGN 6 C13).", "6 C13"),
